@@ -143,6 +143,10 @@ def judge(case, acc, ctx):
         inp, out = os.path.join(d, "in.suit"), os.path.join(d, "out.suit")
         with open(inp, "wb") as fh:
             fh.write(data)
+        if route != "main":
+            # the working directory of the CLI process holds a file called like the key (another checkout using the same key names): the
+            # key in the keys directory signs
+            CO.write_key(_decoy_key(alg), d, kname, enc)
         context = kd if ctxform == "path" else json.dumps({"keys_directory": kd})
         raised = None
         earlier = (kid + len(data)) % 4 == 1
